@@ -1,10 +1,10 @@
-\* exhaustive: two front ends (own clocks 0..1 set freely, own signed-head memory) over one backend, 2 certificates (one precert), tree <= 2, signer / backend faults
+\* thorough: one front end, 3 certificates, tree <= 3
 CONSTANTS
-  Certs = {"x1", "p1"}
+  Certs = {"x1", "x2", "p1"}
   Precerts = {"p1"}
-  MaxClock = 1
-  MaxTree = 2
-  FrontEnds = {"A", "B"}
+  MaxClock = 2
+  MaxTree = 3
+  FrontEnds = {"A"}
   CacheWriteFirst = FALSE
   Depth = 0
 INIT Init
